@@ -255,7 +255,7 @@ def run(rep, facts, tier):
     builtsent.run_reader_wire(rep, fx, 'R03.14')
     # a sample skipped as complete-but-unusable is acknowledged: the assembler's answer decides it (after seed C03g)
     from rdv import report as _report
-    _report.borrow(rep, facts, tier, 'C05', {'R05.18': 'R03.15'})
+    _report.borrow(rep, facts, tier, 'C05', {'R05.18': 'R03.15', 'R05.1': 'R03.16'})
     from rules import numberset as _ns
     _ns.rule_from_base_and_set(rep, fx, 'R03.10')
 
